@@ -294,7 +294,8 @@ static void judge(Reporter& R, const RowInfo& ri, Acc& acc, int cls, uint64_t k,
   for (int j = 0; j < m; ++j) {
     const double eu = ulps<T>(got[j], y[j]);
     const double ec = cond_error<T>(got[j], y[j], delta[j]);
-    const f128 du = delta[j] / ulp_at<T>(y[j]);
+    // Delta in ulps of the result, for the evidence (meaningless when the exact result is 0: total == dynamic)
+    const f128 du = y[j] == 0 ? 0.0Q : delta[j] / ulp_at<T>(y[j]);
     const double dud = du > 1e300Q ? 1e300 : static_cast<double>(du);
     if (eu > acc.max_ulps) acc.max_ulps = eu;
     if (eu > worst) worst = eu;
@@ -360,7 +361,7 @@ static void run_cases(Reporter& R, const Args& A, const RowInfo& ri, Acc& acc, C
     offs[i] = o;
     o += sizes[i];
   }
-  const long long cases = A.n("cases", A.thorough() ? 240000 : 1600);
+  const long long cases = A.n("cases", A.thorough() ? 2000000 : 1600);
   std::vector<T> x(static_cast<size_t>(ri.nin));
   for (long long k = 0; k < cases; ++k) {
     if (!A.mine(static_cast<uint64_t>(k) + static_cast<uint64_t>(ri.index))) continue;
@@ -370,13 +371,18 @@ static void run_cases(Reporter& R, const Args& A, const RowInfo& ri, Acc& acc, C
     const Out out = call(std::get<Is>(args)...);
     const auto got = to_si(out);
     judge<T>(R, ri, acc, cls, static_cast<uint64_t>(k), x, got.data());
-    R.nontrivial(mix(static_cast<uint64_t>(ri.index) * 16 + Num<T>::idx * 4 + cls, 0xC18));
+    // distinct case = (row, numeric type, input class); every shard meets every class, so each key is counted by
+    // the one shard it is assigned to (the driver adds the shards' counts)
+    const uint64_t dk = static_cast<uint64_t>(ri.index) * 16 + static_cast<uint64_t>(Num<T>::idx) * 4 + static_cast<uint64_t>(cls);
+    if (A.mine(dk)) R.nontrivial(mix(dk, 0xC18));
   }
 }
 
-template <typename T, template <typename> class OutQ, template <typename> class... InQ, typename Call>
-static void row(Reporter& R, const Args& A, int index, const char* name, unsigned flags, Call call, RefFn ref) {
-  if constexpr (Num<T>::idx == 1) R.list("rows_table", name);
+// The row index I is a template parameter so that it appears in the compiler's instantiation backtrace.
+template <typename T, int I, template <typename> class OutQ, template <typename> class... InQ, typename Call>
+static void row(Reporter& R, const Args& A, const char* name, unsigned flags, Call call, RefFn ref) {
+  constexpr int index = I;
+  R.list("rows_table", name);
   constexpr bool complete = is_complete<OutQ<T>>::value && (is_complete<InQ<T>>::value && ...);
   if constexpr (!complete) {
     R.list("rows_absent", std::string(name) + " [a class it names is not defined]");
@@ -403,6 +409,29 @@ static void row(Reporter& R, const Args& A, int index, const char* name, unsigne
   }
 }
 
+// A relation whose *body* does not compile for some numeric type cannot be found by a detection idiom (the error is
+// outside the immediate context).  The python side reads (row index, numeric type) out of the failed build's
+// instantiation backtrace and rebuilds with -DC18_DISABLED={row,type},...; such a pair is reported, never run.
+#ifndef C18_DISABLED
+#define C18_DISABLED
+#endif
+struct DisabledPair {
+  int row, type;
+};
+constexpr DisabledPair kDisabled[] = {C18_DISABLED{-1, -1}};
+constexpr bool c18_disabled(int row, int type) {
+  for (const auto& d : kDisabled) {
+    if (d.row == row && d.type == type) return true;
+  }
+  return false;
+}
+
+template <typename T>
+static void row_disabled(Reporter& R, int index, const char* name) {
+  R.list("rows_table", name);
+  R.list("rows_disabled", std::string(name) + "|" + Num<T>::name + "|" + std::to_string(index));
+}
+
 // ------------------------------------------------------------------------------------------------
 // the table
 // ------------------------------------------------------------------------------------------------
@@ -416,9 +445,13 @@ static void row(Reporter& R, const Args& A, int index, const char* name, unsigne
   {                                                                                                       \
     constexpr int I = __COUNTER__ - kBase;                                                                \
     if constexpr (VERIF_IN_PART(I)) {                                                                     \
-      row<T, UNP TYPES>(                                                                                  \
-          R, A, I, NAME, FLAGS, [] ARGS -> decltype(UNP EXPR) { return UNP EXPR; },                       \
-          [](const f128* x, f128* y) { UNP REF });                                                        \
+      if constexpr (c18_disabled(I, Num<T>::idx)) {                                                       \
+        row_disabled<T>(R, I, NAME);                                                                      \
+      } else {                                                                                            \
+        row<T, I, UNP TYPES>(                                                                             \
+            R, A, NAME, FLAGS, [] ARGS -> decltype(UNP EXPR) { return UNP EXPR; },                        \
+            [](const f128* x, f128* y) { UNP REF });                                                      \
+      }                                                                                                   \
     }                                                                                                     \
   }
 
